@@ -50,7 +50,10 @@ func payload(tok string, seed int64, idx int, g W2Cfg) []byte {
 	case "W70Kt":
 		return MakeData("text", 70000, s)
 	case "W140Kn":
-		return MakeData("nearrandom", 140000, s)
+		// two alphabets eight apart: whatever band the raw/compressed decision is sensitive to
+		return append(MakeData("nearrandom", 70000, s), MakeData("nearrandom", 70000, s+4)...)
+	case "W80Krr":
+		return MakeData("randomrepeats", 80000, s)
 	case "W300Kr":
 		return MakeData("random", 300000, s)
 	case "W2M":
